@@ -793,7 +793,7 @@ def check_primal(world, rec):
         return
     ep = rec.ledger_snapshot
     scale = 1.0 + float(np.max(np.abs(ans.G))) + float(np.max(np.abs(ans.F)))
-    tol = 2e-3 * scale if (world.peer.cfg.get("solver") == "SCS") else EPS_REAL * 10 * scale
+    tol = 5e-3 * scale if (getattr(ans, "solver", None) == "SCS") else EPS_REAL * 10 * scale
     worst = 0.0
     for it in ctx.exp_cons:
         try:
@@ -868,8 +868,31 @@ def check_heuristic_exchange(world, rec):
             world.violation("O-HEUR", "second-phase-sense", {"call": n})
         if abs(c.obj_sig[0]) > 1e-12:
             world.violation("O-HEUR", "second-phase-objective-constant", {"call": n})
-        # the old objective must be gone: the objective may not depend on F
-        # (checked through the signature of <W, G>: computed by the property module when W is known)
+        if cfg.get("heuristic") == "trace":
+            want = (0.0,) + tuple(float(np.trace(seam.probe_G(k, c.nG))) for k in range(K))
+            if not sig_close(c.obj_sig, want, 1e-9):
+                world.violation("O-HEUR", "trace-heuristic-objective-is-not-trace-G", {"call": n})
+    # outcome clauses (fault-free runs only)
+    aL = rec.caps[-1].answer
+    if rec.exc is None and rec.result is not None and not rec.injected and a1.obj is not None:
+        real = a1.mode == "real"
+        scale = 1.0 + abs(a1.obj)
+        mode = cfg.get("mode", "dual")
+        if mode == "primal" and real:
+            # the primal value stays within the stated tolerance of the optimum
+            if float(rec.result) < a1.obj - tol - EPS_REAL * scale or float(rec.result) > a1.obj + EPS_REAL * scale:
+                world.violation("O-HEUR", "primal-value-outside-tolerance-of-the-optimum",
+                                {"returned": float(rec.result), "optimum": a1.obj, "tol": tol})
+        if cfg.get("heuristic") == "trace" and real and aL.G is not None and a1.G is not None:
+            t1, tL = float(np.trace(a1.G)), float(np.trace(aL.G))
+            world.residual("O-HEUR/trace", max(0.0, (tL - t1) / (1.0 + abs(t1))))
+            if tL > t1 + EPS_REAL * 10 * (1.0 + abs(t1)):
+                world.violation("O-HEUR", "trace-increased", {"before": t1, "after": tL})
+        # the exposed primal instance is the last call's
+        Gv = getattr(rec.pep, "G_value", None)
+        if Gv is not None and aL.G is not None and np.asarray(Gv).shape == aL.G.shape:
+            if float(np.max(np.abs(np.asarray(Gv) - aL.G))) > 1e-9 * (1 + float(np.max(np.abs(aL.G)))):
+                world.violation("O-HEUR", "exposed-gram-is-not-the-last-phase", {})
     world.reach["heuristic_exchange_checked"] += 1
 
 
